@@ -57,6 +57,7 @@ type C07Op struct {
 type C07Proc struct {
 	Schedule sim.Schedule `json:"schedule"`
 	Ops      []C07Op      `json:"ops"`
+	Parallel bool         `json:"parallel,omitempty"` // GOMAXPROCS=8
 }
 
 type C07Scenario struct {
@@ -116,6 +117,10 @@ func c07Options(t *tape.Tape, thorough bool) gen.Options {
 	o.ServiceMethod = t.Bool(1, 2)
 	o.Enums = t.Bool(1, 3)
 	o.Legacy = t.Bool(1, 6)
+	o.WideLine = t.Bool(1, 8)
+	if t.Bool(1, 40) {
+		o.MinFiles, o.MaxFiles = 20, 40 // a larger project in one delivery
+	}
 	o.Nested = t.Bool(1, 2) // differential oracle: shapes beyond the conventional subset cost nothing
 	return o
 }
@@ -134,7 +139,11 @@ func genHistory(t *tape.Tape, nFiles int, thorough bool, passes []string) []C07P
 		} else {
 			t.Seed64()
 		}
+		proc.Parallel = t.Bool(1, 6)
 		nops := t.Int(2, maxOps)
+		if t.Bool(1, 30) {
+			nops = t.Int(12, 20) // a long-lived process
+		}
 		for o := 0; o < nops; o++ {
 			op := C07Op{Pass: passes[t.Pick(len(passes))]}
 			if op.Pass == "call" || op.Pass == "rcall" || op.Pass == "apigraph" {
@@ -290,14 +299,14 @@ func (r *c07run) place(dir string, pos int, fi int) (string, error) {
 		r.seq++
 		store := filepath.Join(r.ctx.Dir, "store", fmt.Sprintf("s%d_%s.java", r.seq, f.ID))
 		os.MkdirAll(filepath.Dir(store), 0755)
-		if err := os.WriteFile(store, []byte(f.Text), 0644); err != nil {
+		if err := os.WriteFile(store, []byte(materialiseLegacy(f.Text)), 0644); err != nil {
 			return "", err
 		}
 		if err := os.Symlink(store, p); err != nil {
 			return "", err
 		}
 		r.out.Faults["source-file-is-symlink"]++
-	} else if err := os.WriteFile(p, []byte(f.Text), 0644); err != nil {
+	} else if err := os.WriteFile(p, []byte(materialiseLegacy(f.Text)), 0644); err != nil {
 		return "", err
 	}
 	r.paths[p] = "<" + f.ID + ">"
@@ -804,7 +813,10 @@ func (C07) Run(ctx *sim.RunCtx, data json.RawMessage) (*sim.Outcome, error) {
 	laterOp := false
 	var hist []string
 	for pi, p := range sc.Procs {
-		proc := &sim.Proc{Schedule: p.Schedule, Cwd: ctx.Dir}
+		proc := &sim.Proc{Schedule: p.Schedule, Cwd: ctx.Dir, Parallel: p.Parallel}
+		if p.Parallel {
+			out.Faults["real-parallelism"]++
+		}
 		type delivered struct {
 			files []int
 			dir   string
